@@ -2,6 +2,7 @@
   C06 — Responses are accepted only as successful answers to outstanding requests.
 -/
 import PysamlModel.Proofs.Sp
+import PysamlModel.Proofs.SpFactory
 import PysamlModel.Props.C04
 import PysamlModel.Gen.StatusCodes
 
@@ -47,16 +48,16 @@ theorem scanAssertions_false {irp : Option String} :
         · rw [hs0] at hs; cases hs; simpa using hsc
         · exact scanAssertions_false h (fun b hb => hall b (List.mem_cons_of_mem _ hb)) a hmem s hs
 
-/-- Correlation: over a browser binding and unless unsolicited responses are allowed, identity is
-    produced only when the Response's InResponseTo is outstanding, the request context handed back
-    is the one stored under it, and every subject confirmation (of plain and of decrypted
-    assertions) carries the same InResponseTo — for outstanding sets of any size. -/
-theorem C06_correlated {cfg : Cfg} {env : Env} {r : Response} {o : Reported}
-    (h : process cfg env r = .identity o) (hasync : env.asynchop = true) (huns : cfg.allowUnsolicited = false) :
-    ∃ i cf, r.inResponseTo = some i ∧ env.outstanding.lookup i = some cf ∧ o.cameFrom = some cf ∧
+/-- Correlation, from one successful `loads()` and one successful `verify()` started from the `came_from` that
+    `loads()` found (shared by both entry points): over a browser binding and unless unsolicited responses are
+    allowed, the Response's InResponseTo is outstanding, the `came_from` in the final state is the one stored
+    under it, and every subject confirmation of every visible assertion carries the same InResponseTo. -/
+theorem correlated_of_loads_verify {cfg : Cfg} {env : Env} {req rs : Bool} {r : Response} {cf0 : Option String}
+    {p : Parsed} (hl : loads cfg env req r = .ok cf0)
+    (hv : verify cfg env rs { cameFrom := cf0 } r = .ok (some p))
+    (hasync : env.asynchop = true) (huns : cfg.allowUnsolicited = false) :
+    ∃ i cf, r.inResponseTo = some i ∧ env.outstanding.lookup i = some cf ∧ p.st.cameFrom = some cf ∧
       ∀ a ∈ visible r, ∀ s, a.subject = some s → ∀ sc ∈ s.confs, ∀ d, sc.data = some d → d.irt = some i := by
-  obtain ⟨_, cf0, respSigned, rs, p, _, hp1, _, hv, _, _, _, a0, rest, s0, srest, _, _, ho⟩ := process_identity_inv h
-  obtain ⟨req, hl, _, _⟩ := pass1_ok_inv hp1
   obtain ⟨_, _, hcorr⟩ := loads_ok_inv hl
   rcases hcorr hasync with ⟨c, hc, hcf, hscan⟩ | ⟨_, hu, _⟩
   · -- InResponseTo is outstanding
@@ -70,9 +71,9 @@ theorem C06_correlated {cfg : Cfg} {env : Env} {r : Response} {o : Reported}
       obtain ⟨⟨st1, h1, h2⟩, _, hscan2, _, _, _⟩ := parseAssertion_inv hpa
       have hcf1 : st1.cameFrom = some c := checkAll_cameFrom (cf := c) rfl h1
       have hcf2 : p.st.cameFrom = some c := checkAll_cameFrom hcf1 h2
-      refine ⟨i, c, rfl, hc, by rw [ho]; exact hcf2, ?_⟩
+      refine ⟨i, c, rfl, hc, hcf2, ?_⟩
       -- every visible assertion has a subject (it passed get_subject)
-      obtain ⟨rs', hacc⟩ := C04.visible_accepted h
+      have hacc := C04.verify_visible_accepted hv
       have hsubj : ∀ a ∈ visible r, a.subject.isSome = true := by
         intro a ha
         obtain ⟨v, s, s', hs⟩ := hacc a ha
@@ -93,11 +94,35 @@ theorem C06_correlated {cfg : Cfg} {env : Env} {r : Response} {o : Reported}
         exact scanSc_false this sc hsc d hd
   · rw [huns] at hu; cases hu
 
-/-- Status, version and shape: identity ⇒ top-level status Success, version 2.0, at least one
-    visible assertion, each with exactly one AuthnStatement and a Subject. -/
-theorem C06_shape {cfg : Cfg} {env : Env} {r : Response} {o : Reported}
-    (h : process cfg env r = .identity o) : shapeOk r = true := by
-  obtain ⟨_, cf, _, rs, p, _, _, _, hv, _, _, _, a0, rest, s0, srest, hused, _, _⟩ := process_identity_inv h
+/-- Correlation: over a browser binding and unless unsolicited responses are allowed, identity is
+    produced only when the Response's InResponseTo is outstanding, the request context handed back
+    is the one stored under it, and every subject confirmation (of plain and of decrypted
+    assertions) carries the same InResponseTo — for outstanding sets of any size. -/
+theorem C06_correlated {cfg : Cfg} {env : Env} {r : Response} {o : Reported}
+    (h : process cfg env r = .identity o) (hasync : env.asynchop = true) (huns : cfg.allowUnsolicited = false) :
+    ∃ i cf, r.inResponseTo = some i ∧ env.outstanding.lookup i = some cf ∧ o.cameFrom = some cf ∧
+      ∀ a ∈ visible r, ∀ s, a.subject = some s → ∀ sc ∈ s.confs, ∀ d, sc.data = some d → d.irt = some i := by
+  obtain ⟨_, cf0, respSigned, rs, p, _, hp1, _, hv, _, _, _, a0, rest, s0, srest, _, _, ho⟩ := process_identity_inv h
+  obtain ⟨req, hl, _, _⟩ := pass1_ok_inv hp1
+  obtain ⟨i, cf, hi, hlk, hcf, hall⟩ := correlated_of_loads_verify hl hv hasync huns
+  exact ⟨i, cf, hi, hlk, by rw [ho]; exact hcf, hall⟩
+
+/-- Correlation for the factory entry point (`authn_response(...)` + `loads()` + `verify()`): its single `loads()`
+    performs the same InResponseTo lookup and comparison, so the conclusion is the one of `C06_correlated`, under the
+    same hypotheses. -/
+theorem C06_correlated_factory {cfg : Cfg} {env : Env} {r : Response} {o : Reported}
+    (h : processFactory cfg env r = .identity o) (hasync : env.asynchop = true) (huns : cfg.allowUnsolicited = false) :
+    ∃ i cf, r.inResponseTo = some i ∧ env.outstanding.lookup i = some cf ∧ o.cameFrom = some cf ∧
+      ∀ a ∈ visible r, ∀ s, a.subject = some s → ∀ sc ∈ s.confs, ∀ d, sc.data = some d → d.irt = some i := by
+  obtain ⟨cf0, p, hl, hv, _, _, _, _, _, _, ho⟩ := processFactory_identity_inv h
+  obtain ⟨i, cf, hi, hlk, hcf, hall⟩ := correlated_of_loads_verify hl hv hasync huns
+  exact ⟨i, cf, hi, hlk, by rw [ho]; exact hcf, hall⟩
+
+/-- Status, version and shape, from one successful `verify()` whose list of used assertions is not empty
+    (shared by both entry points). -/
+theorem shapeOk_of_verify {cfg : Cfg} {env : Env} {rs : Bool} {st : St} {r : Response} {p : Parsed}
+    {a0 : Assertion} {rest : List Assertion}
+    (hv : verify cfg env rs st r = .ok (some p)) (hused : p.used = a0 :: rest) : shapeOk r = true := by
   obtain ⟨henv, hpa⟩ := verify_some_inv hv
   obtain ⟨hver, _, _, hstat⟩ := verifyEnvelope_true_inv henv
   obtain ⟨_, _, _, hu, _, _⟩ := parseAssertion_inv hpa
@@ -107,12 +132,24 @@ theorem C06_shape {cfg : Cfg} {env : Env} {r : Response} {o : Reported}
   · unfold visible; rw [← hu, hused]; rfl
   · apply List.all_eq_true.mpr
     intro a ha
-    obtain ⟨rs', hacc⟩ := C04.visible_accepted h
-    obtain ⟨v, s, s', hs⟩ := hacc a ha
+    obtain ⟨v, s, s', hs⟩ := C04.verify_visible_accepted hv a ha
     obtain ⟨hA, _, _, _, _, e3, _⟩ := checkAssertion_inv hs
     obtain ⟨sb, hsb, _⟩ := getSubject_facts e3
     obtain ⟨s1, hs1, _⟩ := hA.authn
     simp [hs1, hsb]
+
+/-- Status, version and shape: identity ⇒ top-level status Success, version 2.0, at least one
+    visible assertion, each with exactly one AuthnStatement and a Subject. -/
+theorem C06_shape {cfg : Cfg} {env : Env} {r : Response} {o : Reported}
+    (h : process cfg env r = .identity o) : shapeOk r = true := by
+  obtain ⟨_, cf, _, rs, p, _, _, _, hv, _, _, _, a0, rest, s0, srest, hused, _, _⟩ := process_identity_inv h
+  exact shapeOk_of_verify hv hused
+
+/-- Status, version and shape for the factory entry point. -/
+theorem C06_shape_factory {cfg : Cfg} {env : Env} {r : Response} {o : Reported}
+    (h : processFactory cfg env r = .identity o) : shapeOk r = true := by
+  obtain ⟨cf, p, _, hv, a0, rest, _, _, hused, _, _⟩ := processFactory_identity_inv h
+  exact shapeOk_of_verify hv hused
 
 theorem C06_status {cfg : Cfg} {env : Env} {r : Response} {o : Reported}
     (h : process cfg env r = .identity o) : r.statusTop = "urn:oasis:names:tc:SAML:2.0:status:Success" := by
@@ -219,5 +256,15 @@ example : process okCfg okEnv failedResp = .rejected (.status (some "urn:oasis:n
 private def encOtherIrt : Assertion :=
   { okAssertion with encrypted := true, subject := some { nameId := some "n", confs := [{ method := .bearer, data := some { nooa := some 200, recipient := some "u", irt := some "r0" } }] } }
 example : process okCfg okEnv { okResp with assertions := [encOtherIrt] } = .rejected .unsolicited := by decide
+
+/-! Non-vacuity for the factory entry point: the same Response is accepted with the stored request context, and the
+    same four defects are refused there. -/
+example : processFactory okCfg okEnv okResp = .identity
+  { nameId := some "n", issuer := "", cameFrom := some "/x", notOnOrAfter := 200, sessionIndex := some "s", cached := false } := by decide
+example : processFactory okCfg okEnv { okResp with inResponseTo := some "r9" } = .rejected .unsolicited := by decide
+example : processFactory okCfg okEnv { okResp with inResponseTo := some "r0" } = .rejected .unsolicited := by decide
+example : processFactory okCfg okEnv failedResp = .rejected (.status (some "urn:oasis:names:tc:SAML:2.0:status:AuthnFailed")) := by decide
+example : processFactory okCfg okEnv { okResp with assertions := [encOtherIrt] } = .rejected .unsolicited := by decide
+example : processFactory okCfg okEnv { okResp with version := "1.1" } = .rejected .versionLow := by decide
 
 end C06
